@@ -267,7 +267,7 @@ def slack_rules(ctx, name, convert):
         ctx.check(okk, rule, 'T-CARRY', body.name, what, body.site(pushes[0].bb))
         return fo
     if dvs:
-        field_rule(R + '/vars/kind-integer', 'kind', 'field `kind` does not depend on: const ~ Kind::Integer', lambda sl_: sl_.has_const(r'Kind::Integer'))
+        field_rule(R + '/vars/kind-integer', 'kind', 'field `kind` does not depend on: const ~ Kind::Integer', lambda sl_: denotes_variant(body, sl_, 'Kind::Integer'))
         ido = field_ops('id')
         idop = ido[0][0] if ido and ido[0] else None
         if idop is not None: fresh_id_rule(ctx, R + '/vars/fresh-id', body, idop, 'slack variable id')
@@ -369,7 +369,7 @@ def slack_rules(ctx, name, convert):
                 if bool(v) and v.endswith('Equality::EqualToZero') and covers_ok_exits(c.bb): okk = True
         for bi, st in body.stmts():
             if st['dst']['p'] and (CON, 'equality') in fields_of_place(st['dst']) and st['rv'].get('ops'):
-                if ctx.S.slice_operand(body, st['rv']['ops'][0]).has_const(r'Equality::EqualToZero') and covers_ok_exits(bi): okk = True
+                if denotes_variant(body, ctx.S.slice_operand(body, st['rv']['ops'][0]), 'Equality::EqualToZero') and covers_ok_exits(bi): okk = True
         ctx.check(okk, R + '/coef/set-equality', 'T-BRANCHFX', body.name, 'constraint is not turned into an equality', body.site())
     else:
         eqw = [bi for bi, st in body.stmts() if st['dst']['p'] and (CON, 'equality') in fields_of_place(st['dst'])]
@@ -515,6 +515,16 @@ def pushed_structs(body, pushes):
         built = agg is not None or any(k == 'call' and (d.get('ri') or {}).get('item') in ('default', 'new', 'clone') for l in roots for k, bi, d in body.defs_of(l))
         if built: out.append((roots, agg))
     return out
+
+
+def denotes_variant(body, sl_, variant_suffix):
+    """VARIANT-AS-INTEGER idioms for a raw prost field: `Enum::V as i32` (the discriminant constant) | `Enum::V.into()` /
+    `i32::from(Enum::V)` (the variant value itself, converted): the slice of the stored value contains that variant and no other"""
+    if sl_.has_const(re.escape(variant_suffix)): return True
+    for bi, st in body.stmts():
+        rv = st['rv']
+        if rv['k'] == 'agg' and not rv['ops'] and rv['adt'].endswith(variant_suffix) and st['dst']['l'] in sl_.locals: return True
+    return False
 
 
 def ratio(e):
